@@ -1809,6 +1809,10 @@ pub fn drive(tier_name: &str, seed: u64, workers: usize) -> i32 {
         return 0;
     }
     let mut table: ColdTable = HashMap::new();
+    let mut cur_epoch = 0u64;
+    let mut cur_corpus = gen_corpus(derive(seed, "corpus", 0), t.families, t.q_per_fam);
+    let mut corpora_used = 1u64;
+    let mut cold_total = 0usize;
     let mut cold_disagreements: Vec<(ColdReq, String)> = vec![];
     // agreement sweep: the four entry points on many (document, query) pairs, in fresh chunk processes
     let sweep_families: u64 = std::env::var("VERIF_C12_SWEEP").ok().and_then(|s| s.parse().ok()).unwrap_or(t.sweep_families);
@@ -1884,8 +1888,17 @@ pub fn drive(tier_name: &str, seed: u64, workers: usize) -> i32 {
         }
         let n = batch.min(runs_target - done);
         let idxs: Vec<u64> = (done..done + n).collect();
+        // the thorough tier changes its corpus of documents and query texts every 40 000 runs
+        let epoch = done / 40_000;
+        if epoch != cur_epoch {
+            cur_epoch = epoch;
+            cur_corpus = gen_corpus(derive(seed, "corpus", epoch), t.families, t.q_per_fam);
+            corpora_used += 1;
+            table.clear();
+        }
+        let corpus = &cur_corpus;
         let plans: Vec<(u64, Plan, PlanMeta)> = idxs.iter().map(|i| {
-            let (p, m) = gen_plan(&corpus, derive(seed, "run", *i));
+            let (p, m) = gen_plan(corpus, derive(seed, "run", *i));
             (*i, p, m)
         }).collect();
         // cold keys not yet known
@@ -1911,6 +1924,7 @@ pub fn drive(tier_name: &str, seed: u64, workers: usize) -> i32 {
                     if let Some(d) = &c.disagreement {
                         cold_disagreements.push((req.clone(), d.clone()));
                     }
+                    cold_total += 1;
                     table.insert((req.repr, req.content.clone(), req.query.clone()), c);
                 }
                 Err(e) => harness_errors.push(format!("cold {:?}: {}", req, e)),
@@ -2147,8 +2161,9 @@ pub fn drive(tier_name: &str, seed: u64, workers: usize) -> i32 {
         "operations_by_kind": ops_by_kind,
         "operation_status": status_counts,
         "agreement_sweep": {"pairs": sweep.pairs, "non_empty_results": sweep.non_empty, "errors_or_panics_on_all_four": sweep.errs, "disagreements": sweep.disagreements, "what": "the four entry points compared position by position on generated (document, query) pairs, in fresh chunk processes"},
-        "cold_oracle_keys": table.len(),
-        "cold_oracle_processes": table.len(),
+        "cold_oracle_keys": cold_total,
+        "cold_oracle_processes": cold_total,
+        "corpora_used": corpora_used,
         "scheduler_steps": agg_steps,
         "context_switches": agg_switches,
         "context_switches_inside_an_operation": agg_intra,
@@ -2193,7 +2208,7 @@ pub fn drive(tier_name: &str, seed: u64, workers: usize) -> i32 {
     });
     println!(
         "C12 done: runs={} ops={} steps={} switches={} intra_op_switches={} nontrivial={} distinct_sigs={} cold_keys={} faults_fired={}/{} determinism={}/{} violations={} batch_fp={:016x} wall={:.1}s",
-        done, agg_ops, agg_steps, agg_switches, agg_intra, nontrivial_runs, sigs.len(), table.len(), faults_fired, faults_planned, determinism_checked - determinism_mismatch.len() as u64, determinism_checked, violations, batch_fp, wall
+        done, agg_ops, agg_steps, agg_switches, agg_intra, nontrivial_runs, sigs.len(), cold_total, faults_fired, faults_planned, determinism_checked - determinism_mismatch.len() as u64, determinism_checked, violations, batch_fp, wall
     );
     exit
 }
